@@ -2,41 +2,98 @@
 // Producer programs (external threads t0/t1, and `p` = a program run by a task on the pool):
 //   s  schedule(f)     q  schedule(f, ForceQueuingTag)     b<k>  scheduleBulk(k, gen)
 // params: n pool size, mult poolLoadMultiplier, poll=1 setSignalingWake(false, 200us) before use.
+//
+// Path markers (mc::cover) are derived from *which thread* ran a functor:
+//   inline_schedule / inline_bulk   on the submitting thread while its schedule()/scheduleBulk() call is in progress
+//   worker_single / worker_bulk     on a pool worker (task went through the central queue; bulk = enqueue_bulk)
+//   dtor_drain                      on T0 while ~ThreadPool is in progress (the destructor's own drain loops)
+//   inline_on_pool_thread           inline, and the submitting thread is a pool worker (pool-recursive load rule)
 #include "mc_harness.h"
 #include <dispenso/thread_pool.h>
 
 namespace {
 constexpr int kMaxTasks = 32;
+enum Kind { kSingle = 0, kFq = 1, kBulk = 2 };
+enum Where { wInline = 1, wWorker = 2, wDtor = 3, wOther = 4 };
+
 struct Counters {
   mc::Shared<int> ran[kMaxTasks];
-  mc::Shared<int> next{0};
+  mc::Shared<int> submitter[kMaxTasks]; // modelled thread id of the submitting thread
+  mc::Shared<int> in_call[kMaxTasks]; // 1 while the submitting call is in progress
+  mc::Shared<int> kind[kMaxTasks];
+  mc::Shared<int> where[kMaxTasks];
+  mc::Shared<int> used[kMaxTasks]; // id handed to the pool
+  mc::Shared<int> next[4]; // per producer: ids are producer*8 + k, independent of the interleaving
   mc::Shared<int> pool_gone{0};
-  int fresh() { return next.add(1); }
+  mc::Shared<int> destroying{0};
+  mc::Shared<int> harness_thread[3]; // ids of T0 and the external producer (never pool workers)
+  int t0_id = 0;
+
+  int fresh(int producer, int k, Kind kd) {
+    int base = producer * 8 + next[producer].add(k);
+    MC_CHECK(base + k <= producer * 8 + 8, "harness: producer %d submits more than 8 tasks", producer);
+    for (int i = base; i < base + k; i++) {
+      used[i].set(1);
+      submitter[i].set(mc_self_id());
+      kind[i].set(kd);
+      in_call[i].set(1);
+    }
+    return base;
+  }
+  void call_done(int base, int k) {
+    for (int i = base; i < base + k; i++) in_call[i].set(0);
+  }
+  bool is_harness_thread(int id) const {
+    for (auto& h : harness_thread)
+      if (h.get() == id + 1) return true;
+    return false;
+  }
   void run(int id) {
     MC_CHECK(pool_gone.get() == 0, "task %d started after ~ThreadPool returned", id);
     int prev = ran[id].add(1);
     MC_CHECK(prev == 0, "task %d ran a second time", id);
+    int self = mc_self_id();
+    bool bulk = kind[id].get() == kBulk;
+    int w;
+    if (self == submitter[id].get() && in_call[id].get()) {
+      w = wInline;
+      mc::cover(bulk ? "inline_bulk" : (kind[id].get() == kFq ? "inline_fq_zero_threads" : "inline_schedule"));
+      if (!is_harness_thread(self)) mc::cover("inline_on_pool_thread");
+    } else if (self == t0_id && destroying.get()) {
+      w = wDtor;
+      mc::cover("dtor_drain");
+    } else if (!is_harness_thread(self)) {
+      w = wWorker;
+      mc::cover(bulk ? "worker_bulk" : "worker_single");
+    } else {
+      w = wOther; // a producer thread ran somebody else's task inside one of its own calls: not expected, not forbidden
+      mc::cover("ran_on_other_producer");
+    }
+    where[id].set(w);
   }
 };
 
-void run_program(dispenso::ThreadPool& pool, Counters& c, const std::string& prog) {
+void run_program(dispenso::ThreadPool& pool, Counters& c, int producer, const std::string& prog) {
   for (size_t pc = 0; pc < prog.size(); pc++) {
     char op = prog[pc];
     if (op == 's') {
-      int id = c.fresh();
+      int id = c.fresh(producer, 1, kSingle);
       pool.schedule([&c, id] { c.run(id); });
+      c.call_done(id, 1);
       mc::cover("schedule");
     } else if (op == 'q') {
-      int id = c.fresh();
+      int id = c.fresh(producer, 1, kFq);
       pool.schedule([&c, id] { c.run(id); }, dispenso::ForceQueuingTag());
+      c.call_done(id, 1);
       mc::cover("schedule_fq");
     } else if (op == 'b') {
       int k = prog[++pc] - '0';
-      int base = c.next.add(k);
+      int base = c.fresh(producer, k, kBulk);
       pool.scheduleBulk((size_t)k, [&c, base](size_t i) {
         int id = base + (int)i;
         return [&c, id] { c.run(id); };
       });
+      c.call_done(base, k);
       mc::cover("schedule_bulk");
     }
   }
@@ -46,25 +103,42 @@ void run_program(dispenso::ThreadPool& pool, Counters& c, const std::string& pro
 MC_HARNESS(submit) {
   long n = P("n", 1), mult = P("mult", 32);
   Counters c;
+  c.t0_id = mc_self_id();
+  c.harness_thread[0].set(c.t0_id + 1);
   std::string t0 = P.s("t0", ""), t1 = P.s("t1", ""), inner = P.s("p", "");
   {
     dispenso::ThreadPool pool((size_t)n, (size_t)mult);
     if (P("poll", 0)) pool.setSignalingWake(false, std::chrono::microseconds(200));
-    if (!t1.empty() && t1 != "-") mc::spawn([&] { run_program(pool, c, t1); });
+    if (!t1.empty() && t1 != "-")
+      mc::spawn([&] {
+        c.harness_thread[1].set(mc_self_id() + 1);
+        run_program(pool, c, 1, t1);
+      });
     if (!inner.empty() && inner != "-") {
-      int id = c.fresh();
+      int id = c.fresh(3, 1, kFq); // the launcher task itself
       pool.schedule(
           [&, id] {
             c.run(id);
-            run_program(pool, c, inner); // a pool thread (or the inline caller) as producer
+            run_program(pool, c, 2, inner); // a pool thread (or, with n=0, the inline caller) as producer
           },
           dispenso::ForceQueuingTag());
+      c.call_done(id, 1);
     }
-    run_program(pool, c, t0);
+    run_program(pool, c, 0, t0);
     mc::join_all(); // producers are done before the pool is destroyed (documented requirement)
+    c.destroying.set(1);
   } // ~ThreadPool
   c.pool_gone.set(1);
-  int total = c.next.get();
-  for (int i = 0; i < total; i++) MC_CHECK(c.ran[i].get() == 1, "task %d ran %d times by the time ~ThreadPool returned", i, c.ran[i].get());
+  int total = 0;
+  for (int i = 0; i < kMaxTasks; i++) {
+    if (!c.used[i].get()) continue;
+    total++;
+    MC_CHECK(c.ran[i].get() == 1, "task %d (producer %d) ran %d times by the time ~ThreadPool returned", i, i / 8, c.ran[i].get());
+  }
+  // outcome digest: who ran which task
+  static const char* keys[kMaxTasks] = {"t0", "t1", "t2", "t3", "t4", "t5", "t6", "t7", "t8", "t9", "t10", "t11", "t12", "t13", "t14", "t15",
+                                        "t16", "t17", "t18", "t19", "t20", "t21", "t22", "t23", "t24", "t25", "t26", "t27", "t28", "t29", "t30", "t31"};
+  for (int i = 0; i < kMaxTasks; i++)
+    if (c.used[i].get()) mc::observe(keys[i], c.where[i].get());
   mc::observe("tasks", total);
 }
